@@ -434,6 +434,85 @@ func c08Structural(c *Ctx, r *rng.R) {
 	}
 }
 
+// c08NullMemberUnderPlaceholder: a tuple (or object) whose members all have one placeholder-free type,
+// some of them null, converted to a set / list / map whose element type has a placeholder BELOW its
+// top level (set(object({a=dynamic})), list(list(dynamic)), ...): the members resolve the placeholder,
+// the null ones too, so the result type is placeholder-free, equals the type an unknown or null of the
+// same source type converts to, and the conversion cannot fail where that one succeeds.
+func c08NullMemberUnderPlaceholder(c *Ctx, r *rng.R) {
+	L, S, M := func(e *gt.T) *gt.T { return &gt.T{K: gt.List, Elem: e} }, func(e *gt.T) *gt.T { return &gt.T{K: gt.Set, Elem: e} }, func(e *gt.T) *gt.T { return &gt.T{K: gt.Map, Elem: e} }
+	leaf := []*gt.T{gt.P(gt.Str), gt.P(gt.Num), gt.P(gt.Bool)}[r.Intn(3)]
+	var member, memberDyn *gt.T
+	switch r.Intn(4) {
+	case 0:
+		member, memberDyn = &gt.T{K: gt.Obj, Attrs: []gt.Attr{{Name: "a", T: leaf}}}, &gt.T{K: gt.Obj, Attrs: []gt.Attr{{Name: "a", T: gt.P(gt.Dyn)}}}
+	case 1:
+		member, memberDyn = L(leaf), L(gt.P(gt.Dyn))
+	case 2:
+		member, memberDyn = M(leaf), M(gt.P(gt.Dyn))
+	default:
+		member, memberDyn = &gt.T{K: gt.Tuple, Elems: []*gt.T{leaf, gt.P(gt.Bool)}}, &gt.T{K: gt.Tuple, Elems: []*gt.T{gt.P(gt.Dyn), gt.P(gt.Bool)}}
+	}
+	n := 1 + r.Intn(3)
+	var src, tgt *gt.T
+	vals := make([]cty.Value, n)
+	anyKnown := false
+	for k := range vals {
+		if r.Chance(50) {
+			vals[k] = cty.NullVal(member.Build())
+			if r.Chance(25) {
+				vals[k] = vals[k].Mark("m")
+			}
+		} else {
+			vals[k] = gv.Gen(r, member, gv.KnownCfg, 2)
+			anyKnown = true
+		}
+	}
+	_ = anyKnown
+	var v cty.Value
+	if r.Chance(70) {
+		src = &gt.T{K: gt.Tuple}
+		for range vals {
+			src.Elems = append(src.Elems, member)
+		}
+		tgt = []*gt.T{S(memberDyn), L(memberDyn), S(memberDyn)}[r.Intn(3)]
+		v = cty.TupleVal(vals)
+	} else {
+		src = &gt.T{K: gt.Obj}
+		attrs := map[string]cty.Value{}
+		for k := range vals {
+			nm := []string{"a", "b", "c"}[k]
+			src.Attrs = append(src.Attrs, gt.Attr{Name: nm, T: member})
+			attrs[nm] = vals[k]
+		}
+		tgt = M(memberDyn)
+		v = cty.ObjectVal(attrs)
+	}
+	if r.Chance(30) { // one or two levels further down
+		src, tgt = &gt.T{K: gt.Obj, Attrs: []gt.Attr{{Name: "s", T: src}}}, &gt.T{K: gt.Obj, Attrs: []gt.Attr{{Name: "s", T: tgt}}}
+		v = cty.ObjectVal(map[string]cty.Value{"s": v})
+		if r.Bool() {
+			src, tgt = M(src), M(tgt)
+			v = cty.MapVal(map[string]cty.Value{"k": v})
+		}
+	}
+	target := tgt.Build()
+	desc := map[string]interface{}{"source": src.String(), "target": tgt.String(), "value": cq.Show(v), "family": "null-member-under-placeholder"}
+	c08Pair(c, r, v, tgt, "structural/null-member")
+	var rk, ru cty.Value
+	var ek, eu error
+	pk, _ := recovered(func() { rk, ek = convert.Convert(v, target) })
+	pu, _ := recovered(func() { ru, eu = convert.Convert(cty.UnknownVal(src.Build()), target) })
+	c.Count("oracle_evals")
+	switch {
+	case pk || pu || eu != nil:
+	case ek != nil:
+		c.Fail("C08/known-fails-where-unknown-converts", fmt.Sprintf("an unknown of this type converts to %#v, this value of the type does not: %v", ru.Type(), ek), desc)
+	case !ru.Type().Equals(rk.Type()):
+		c.Fail("C08/unknown-result-type-differs", fmt.Sprintf("this value converts to %#v, an unknown of its type to %#v", rk.Type(), ru.Type()), desc)
+	}
+}
+
 // c08MapToObject: maps with null elements and missing keys converted to object types whose attributes are
 // required or optional, of the element type, of a type it converts to, or of a type it does not convert to
 func c08MapToObject(c *Ctx, r *rng.R) {
@@ -503,6 +582,10 @@ func genC08(c *Ctx, r *rng.R, i int) {
 	}
 	if r.Chance(5) {
 		c08MapToObject(c, r)
+		return
+	}
+	if i%17 == 5 {
+		c08NullMemberUnderPlaceholder(c, r)
 		return
 	}
 	t := gt.Gen(r, c08cfg)
